@@ -67,6 +67,9 @@ func names(tier int) []string {
 		"/srv/x86_64/y", "/etc/app/x.conf", "/var/lib/app/x", "/dev/dri/card0", "/srv/data/plain",
 		// characters that are pattern syntax in a rule but plain characters in a file name (the kernel logs them as they are)
 		"/srv/report[1].pdf", "/srv/{ec8030f7-c20a-464f-9b0e-13a3a9e97384}/x", `/srv/mnt-my\x2ddisk.mount`, "/srv/a*b", "/srv/a?b", "/srv/{a,b}",
+		// a system directory name right below a directory that is itself rewritten to a variable; a directory called att
+		"/home/user/usr/bin/tool", "/home/user/usr/lib/libx.so.1", "/home/user/run/foo", "/home/user/proc/x", "/home/user/sys/x", "/run/proc/x", "/run/sys/x",
+		"/usr/etc/run/x", "/tmp/user/1000/proc/x", "/usr/share/att/logo/x.png", "/home/user/att/notes/x.txt", "/proc/one/x", "/srv/chroot/proc/one/status",
 		// directories that only look like the dot directories of the home rewrites
 		"/home/user/ccache/a.o", "/home/user/xconfig/a", "/home/user/Xlocal/share/x", "/home/user/xssh/id", "/home/user/-gnupg/x",
 	}
